@@ -110,6 +110,30 @@ pub fn check(c: &Case, obs: &mut Obs) -> Result<(), String> {
                         return Err(format!("{:?} reports PKGREVISION {} but does not match {:?}", n, r, pat));
                     }
                 }
+                // the same through bounds of another length (zero padding must not change which
+                // revision is compared)
+                for pad in [".0", "_", "pl", ".0.0"] {
+                    for (pat, want) in [
+                        (format!("{}>={}{}nb{}", base, x, pad, r), true),
+                        (format!("{}<={}{}nb{}", base, x, pad, r), true),
+                        (format!("{}<{}{}nb{}", base, x, pad, r + 1), true),
+                        (format!("{}>{}{}nb{}", base, x, pad, r), false),
+                    ] {
+                        // padding only ties when nothing but zero-valued components follow
+                        let tail_ok = !x.is_empty() || pad != "pl";
+                        if !tail_ok {
+                            continue;
+                        }
+                        let got = matches(&pat, n)?;
+                        obs.verdicts += 1;
+                        if got != want {
+                            return Err(format!(
+                                "{:?} reports PKGREVISION {} but pattern {:?} (bound padded with a zero component) matches = {} (expected {})",
+                                n, r, pat, got, want
+                            ));
+                        }
+                    }
+                }
                 obs.class("revision-probed-through-comparison");
             }
         }
@@ -133,6 +157,23 @@ pub fn check(c: &Case, obs: &mut Obs) -> Result<(), String> {
             ));
         }
         obs.class("summary-accessors-compared");
+    }
+    // the matcher splits at the same place: a pattern whose base is only the part before an
+    // *earlier* '-' must not match
+    if has_dash && !n.contains(['<', '>', '{', '}']) {
+        if let Some(i) = base.find('-') {
+            let shorter = &base[..i];
+            for pat in [format!("{}>=", shorter), format!("{}<999999999", shorter), format!("{}>=0", shorter)] {
+                obs.verdicts += 1;
+                if matches(&pat, n)? {
+                    return Err(format!(
+                        "pattern {:?} matches {:?} although PKGBASE is {:?} (the name must be split at its last '-')",
+                        pat, n, base
+                    ));
+                }
+            }
+            obs.class("shorter-base-probed");
+        }
     }
     let dashes = n.matches('-').count();
     let nbs = version.matches("nb").count();
